@@ -30,6 +30,73 @@ const VOCAB: [&str; 8] = ["T", "K", "U", "V", "Item", "Key", "Node", "Error"];
 /// Names the crate's own templates use (set once per process by the corpus harvester).
 static TEMPLATE_VOCAB: std::sync::OnceLock<(Vec<String>, Vec<String>)> = std::sync::OnceLock::new();
 
+static TESTED_WORDS: std::sync::OnceLock<Vec<String>> = std::sync::OnceLock::new();
+
+pub fn set_tested_words(words: &[String]) {
+    let _ = TESTED_WORDS.set(words.to_vec());
+}
+
+/// parameter-like words of the source that no example in the repository ever writes inside
+/// `#[educe(..)]`: undocumented aliases and parameters a change has just introduced
+fn untested_param_words() -> Vec<&'static str> {
+    let (Some(p), Some(t)) = (PARAM_WORDS.get(), TESTED_WORDS.get()) else { return vec![] };
+    const PRIMS: [&str; 17] = ["bool", "char", "str", "i8", "i16", "i32", "i64", "i128", "isize", "u8", "u16", "u32", "u64", "u128", "usize", "f32", "f64"];
+    p.iter()
+        .filter(|w| w.chars().next().map(|c| c.is_lowercase()).unwrap_or(false))
+        .filter(|w| !t.contains(w) && !PRIMS.contains(&w.as_str()))
+        .map(|w| w.as_str())
+        .collect()
+}
+
+/// A *parameter probe*: a small, otherwise valid item that uses one parameter-like word of the
+/// crate's source in one trait's request, at type, variant or field level — preferring words the
+/// repository's examples never use.
+pub fn param_probe(rng: &mut Rng, name: &str) -> String {
+    let untested = untested_param_words();
+    let word: String = if !untested.is_empty() && rng.chance(7, 10) {
+        untested[rng.usize(untested.len())].to_string()
+    } else {
+        param_word(rng).unwrap_or("name").to_string()
+    };
+    let tr = *rng.pick(&TRAITS[..11]);
+    let req = match rng.below(5) {
+        0 | 1 => format!("{tr}({word})"),
+        2 => format!("{tr}({word} = {})", rng.pick(&["true", "false", "Shown", "\"text\"", "1"])),
+        3 => format!("{tr}({word}(Shown))"),
+        _ => format!("{tr}({word}, name = false)"),
+    };
+    let plain = tr.to_string();
+    let level = rng.below(10);
+    let (ty_req, var_req, fld_req) = match level {
+        0..=4 => (req.clone(), String::new(), String::new()),
+        5..=6 => (plain.clone(), format!("#[educe({req})] "), String::new()),
+        _ => (plain.clone(), String::new(), format!("#[educe({req})] ")),
+    };
+    let extra = if rng.chance(1, 2) { ", Clone" } else { "" };
+    match rng.below(4) {
+        0 => format!("#[derive(Educe)]\n#[educe({ty_req}{extra})]\nstruct {name}<T> {{ {fld_req}a: u8, b: T, c: T }}\n"),
+        1 => format!("#[derive(Educe)]\n#[educe({ty_req}{extra})]\nstruct {name}<T>({fld_req}u8, T);\n"),
+        2 => format!("#[derive(Educe)]\n#[educe({ty_req}{extra})]\nenum {name}<T> {{ {var_req}A({fld_req}u8, T), B {{ x: T }}, C }}\n"),
+        _ => format!("#[derive(Educe)]\n#[educe({ty_req}{extra})]\nstruct {name};\n"),
+    }
+}
+
+static PARAM_WORDS: std::sync::OnceLock<Vec<String>> = std::sync::OnceLock::new();
+
+pub fn set_param_words(words: &[String]) {
+    let _ = PARAM_WORDS.set(words.to_vec());
+}
+
+fn param_word(rng: &mut Rng) -> Option<&'static str> {
+    let v = PARAM_WORDS.get()?;
+    let lower: Vec<&String> = v.iter().filter(|w| w.chars().next().map(|c| c.is_lowercase()).unwrap_or(false)).collect();
+    if lower.is_empty() {
+        None
+    } else {
+        Some(lower[rng.usize(lower.len())].as_str())
+    }
+}
+
 pub fn set_template_vocab(upper: &[String], lower: &[String]) {
     let _ = TEMPLATE_VOCAB.set((upper.to_vec(), lower.to_vec()));
 }
@@ -400,7 +467,8 @@ fn respell(rng: &mut Rng, frag: &str) -> String {
 /// of these are rejected — but a parameter a change has just introduced is reached without the
 /// generator knowing its name in advance.
 fn vocab_param(rng: &mut Rng, tr: &str) -> Option<String> {
-    let w = template_lower(rng)?;
+    // mostly words the macro demonstrably compares identifiers against
+    let w = if rng.chance(3, 4) { param_word(rng).or_else(|| template_lower(rng))? } else { template_lower(rng)? };
     let val = *rng.pick(&["true", "false", "1", "\"text\"", "Name", "a::b", "-1"]);
     Some(match rng.below(4) {
         0 => format!("{tr}({w})"),
@@ -721,7 +789,7 @@ fn build_model(rng: &mut Rng, name: &str, opts: &GenOpts) -> Model {
             }
         }
         if rng.chance(1, 80) {
-            if let Some(w) = template_lower(rng) {
+            if let Some(w) = if rng.chance(3, 4) { param_word(rng).or_else(|| template_lower(rng)) } else { template_lower(rng) } {
                 params.push(match rng.below(3) {
                     0 => w.to_string(),
                     1 => format!("{w} = {}", rng.pick(&["true", "false", "1", "\"text\"", "Name"])),
